@@ -327,8 +327,14 @@ func (r *Run) Finish(t Failer) {
 		t.Fatalf("evidence marshal: %v", err)
 	}
 	dir := filepath.Join(OutDir(), "evidence")
+	name := r.ID + ".json"
+	if part := os.Getenv("VERIF_PART"); part != "" {
+		// a check made of several test binaries: each writes a part, ./check merges them
+		dir = filepath.Join(dir, "parts")
+		name = r.ID + "." + part + ".json"
+	}
 	os.MkdirAll(dir, 0o755)
-	if err := os.WriteFile(filepath.Join(dir, r.ID+".json"), b, 0o644); err != nil {
+	if err := os.WriteFile(filepath.Join(dir, name), b, 0o644); err != nil {
 		t.Fatalf("evidence write: %v", err)
 	}
 	fmt.Printf("%s %s: evaluations=%d states=%d transitions=%d distinct_nontrivial=%d exhaustive=%v violations=%d known=%d wall=%.1fs\n",
